@@ -1667,7 +1667,7 @@ FAULTENUM_SEQS = [
 ]
 
 
-def faultenum_history(seq, k):
+def faultenum_history(seq, k, depth=3):
     """call under configuration A, switch, the call under configuration B fails at its k-th
     shallow line (package frames at most 3 deep: where calculators and generators record what
     they are set up for - a failure inside any deeper callee surfaces at one of these lines),
@@ -1687,7 +1687,7 @@ def faultenum_history(seq, k):
     else:
         grids.append({"atom_grid": [20, 86]})
         a, b, mid = dict(base), dict(base, grid=1), []
-    ops = [a] + mid + [dict(b, fault=k, fault_shallow=3), dict(b)]
+    ops = [a] + mid + [dict(b, fault=k, fault_shallow=depth), dict(b)]
     return {"kind": "ni", "models": [m], "mols": mols, "grids": grids, "perturb": 0xA5, "ops": ops, "scribble": False, "near_dup": False, "share_refs": True, "judge_from": len(ops) - 1}
 
 
@@ -1695,7 +1695,7 @@ def run_faultenum(spec):
     viol, stats, dg = [], Counter(), Digest()
     seen = set()
     for k in range(spec["k0"], spec["k1"]):
-        hist = faultenum_history(FAULTENUM_SEQS[spec["seq"]], k)
+        hist = faultenum_history(FAULTENUM_SEQS[spec["seq"]], k, spec.get("depth", 3))
         rp = {"property": PROP, "engine": "histsim", "case": {"hist": hist}}
         try:
             v, st_, d_ = exec_ni_history(hist, rp)
@@ -1882,6 +1882,12 @@ def plan(tier, seed, args):
         for q in range(nseq):
             for k0 in range(1, npts + 1, chunk):
                 fe.append({"hkind": "faultenum", "seq": q, "k0": k0, "k1": min(k0 + chunk, npts + 1)})
+        # ... and every line of a constructor executed during that call (objects that own C
+        # resources are half-built there)
+        nseq3, npts3, chunk3 = (1, 240, 12) if tier == "quick" else (5, 1500, 30)
+        for q in range(nseq3):
+            for k0 in range(1, npts3 + 1, chunk3):
+                fe.append({"hkind": "faultenum", "seq": q, "k0": k0, "k1": min(k0 + chunk3, npts3 + 1), "depth": -1})
         nseq2, npts2, chunk2 = (5, 60, 12) if tier == "quick" else (len(GEN_FAULTENUM), 600, 30)
         for q in range(nseq2):
             for k0 in range(1, npts2 + 1, chunk2):
@@ -1906,8 +1912,31 @@ def on_crash(spec, status):
     sig = fatal_signal(status)
     if sig is None:
         return None
+    if spec.get("hkind") in ("faultenum", "gen_faultenum"):
+        # one of the enumerated fault points took the process down: find it by running the
+        # points of the chunk one by one
+        for k in range(spec["k0"], spec["k1"]):
+            one = dict(spec, k0=k, k1=k + 1)
+            r = run_pool([one], run_case, nproc=1, case_timeout=CASE_TIMEOUT)[0]
+            if r is not None and "crashed" in r and fatal_signal(r["crashed"]) is not None:
+                if spec["hkind"] == "faultenum":
+                    hist = faultenum_history(FAULTENUM_SEQS[spec["seq"]], k, spec.get("depth", 3))
+                else:
+                    hist = gen_faultenum_history(*GEN_FAULTENUM[spec["seq"]], k)
+                key = "history-crash:%s:interrupted-call:signal%d:crash" % (hist["kind"], fatal_signal(r["crashed"]))
+                rp = {"property": PROP, "engine": "histsim", "case": {"hist": hist}, "violation": {"key": key}}
+                return {"key": key, "detail": "the process is killed by signal %d when the call is interrupted at enumerated fault point %d (mode %s) and the objects are used or collected afterwards" % (fatal_signal(r["crashed"]), k, spec.get("depth", 3)), "replay": rp}
+        return None
     hist = spec.get("hist") or gen_history(spec["hkind"], spec["seed"])
-    if len(hist.get("ops", [])) > 1:
+    ops = hist.get("ops", [])
+    if ops and ops[0].get("fault"):
+        # the first operation is itself an interrupted call: the crash is a consequence of the
+        # interruption iff the same operation completes when it is not interrupted
+        plain = dict(spec, hist=dict(hist, ops=[{k_: v_ for k_, v_ in ops[0].items() if k_ not in ("fault", "fault_site", "fault_shallow")}]))
+        r = run_pool([plain], run_case, nproc=1, case_timeout=CASE_TIMEOUT)[0]
+        if r is None or "crashed" in r or "harness_error" in r:
+            return None
+    elif len(ops) > 1:
         first = dict(spec, hist=dict(hist, ops=hist["ops"][:1]))
         r = run_pool([first], run_case, nproc=1, case_timeout=CASE_TIMEOUT)[0]
         if r is None or "crashed" in r or "harness_error" in r:
